@@ -3,6 +3,7 @@ package props
 import (
 	"fmt"
 	"os"
+	"sort"
 	"sync"
 
 	"verif/harness/gen"
@@ -84,10 +85,29 @@ func specFromProgram(p *program, outs []string) *modelSpec {
 		dts[k] = v.DT
 	}
 	orig := p.Feed
+	// inputs that have a default (an initializer of the same name): every call decides
+	// anew whether it overrides the default
+	var shadowNames []string
+	shadow := map[string]*ref.T{}
+	for _, it := range p.Inits {
+		if p.Shadow[it.Name] {
+			shadow[it.Name] = it.T
+			shadowNames = append(shadowNames, it.Name)
+		}
+	}
+	sort.Strings(shadowNames)
 	return &modelSpec{Name: "generated", Bytes: p.Graph(outs).Bytes(), Outputs: outs,
 		Feed: func(r *gen.R, b int) map[string]*ref.T {
 			feed := map[string]*ref.T{}
+			for _, name := range shadowNames {
+				if r.Bool() {
+					feed[name] = uniformT(r, shadow[name].DT, shadow[name].Shape, 2)
+				}
+			}
 			for k, v := range orig {
+				if _, isShadow := shadow[k]; isShadow {
+					continue
+				}
 				if v.DT == ref.F32 && r.Chance(0.8) {
 					feed[k] = uniformT(r, ref.F32, shapes[k], 2)
 				} else {
